@@ -31,13 +31,14 @@ F(op, fin, pay) == [op |-> op, fin |-> fin, pay |-> pay]
 FramesTiny ==
   { F("text", TRUE, PA), F("text", FALSE, PAB), F("cont", TRUE, PB), F("ping", TRUE, PA), F("close", TRUE, PE) }
 FramesQuick ==
-  { F("text", TRUE, PA), F("text", FALSE, PAB), F("binary", TRUE, PE), F("binary", FALSE, PE), F("binary", TRUE, P126),
+  { F("text", TRUE, PA), F("text", FALSE, PAB), F("binary", TRUE, PE), F("binary", TRUE, P126),
     F("cont", TRUE, PB), F("cont", FALSE, PB),
     F("ping", TRUE, PE), F("ping", TRUE, PA), F("pong", TRUE, PA),
     F("close", TRUE, PE), F("close", TRUE, PC) }
 FramesThorough ==
   FramesQuick \cup
-  { F("text", TRUE, PE), F("text", FALSE, PE), F("binary", TRUE, PA), F("binary", FALSE, PB), F("binary", TRUE, P64K),
+  { F("text", TRUE, PE), F("text", FALSE, PE), F("binary", TRUE, PA), F("binary", FALSE, PB), F("binary", FALSE, PE),
+    F("binary", TRUE, P64K),
     F("cont", TRUE, PE), F("cont", TRUE, P126), F("ping", TRUE, P125), F("pong", TRUE, PE) }
 
 (* delivery split classes: offsets inside one frame after which the client pauses *)
@@ -78,8 +79,8 @@ MCNext == A_Handshake \/ A_StartFrame \/ A_Piece \/ A_Shut
 mcvars == <<vars, plan>>
 \* liveness: a handler that keeps receiving
 MCFair ==
-  /\ WF_mcvars(A_Piece) /\ WF_mcvars(A_CallRecv) /\ WF_mcvars(A_Frame)
-  /\ WF_mcvars(A_None) /\ WF_mcvars(A_Eof) /\ WF_mcvars(A_Send) /\ WF_mcvars(A_Garbage)
+  /\ WF_mcvars(A_Piece) /\ WF_mcvars(A_CallRecv) /\ SF_mcvars(A_Frame) /\ SF_mcvars(A_Eof)
+  /\ WF_mcvars(A_Send) /\ WF_mcvars(A_Garbage)
 MCSpec == MCInit /\ [][MCNext]_mcvars /\ MCFair
 AllDelivered == AllDeliveredUpTo(MaxFrames)
 
